@@ -984,6 +984,10 @@ package leader
 //@   loop 0 invariant C06.periodic_check_armed: tickerArmed && !tick && onTrackedGoroutine
 //@   on return assert C06.loop_ends_only_on_cancel: sawDone
 
+// The periodic check decodes the record into a generic map: the id it finds there.
+//@ spec RecID(v) = pay(mapget(ParseMap(v), "id"))
+//@ spec RecIDOK(v) = ParseMapOK(v) && maphas(ParseMap(v), "id") && istype(mapget(ParseMap(v), "id"), string)
+
 //@ func (e *kvElection) checkKeyAndReelect(ctx)
 //@   tags C06 C13 C18 C01
 //@   ghost onTrackedGoroutine Bool = true
@@ -1003,6 +1007,13 @@ package leader
 //@   ensures C06.leader_skips: !got ==> scalls(attemptAcquireWithRetry) == 0
 //@   on call attemptAcquireWithRetry as c assert C06+C09.acquire_bound_to_given_ctx: c.ctx == ctx
 //@   ensures C06.periodic_check_skipped_only_by_leader: !got ==> sawLeader
+//@   ghost known Int = 0
+//@   ghost notedID Int = 0
+//@   ghost noted Bool = false
+//@   on load kvElection.leaderID as l set known = l.value
+//@   on store kvElection.leaderID as s set notedID = s.value
+//@   on store kvElection.leaderID set noted = true
+//@   ensures C18.periodic_check_learns_the_owner: got && getErr == nil && getEnt != nil && LenOf(EntryVal(getEnt)) != 0 && RecIDOK(EntryVal(getEnt)) && !sawLeader ==> (noted && notedID == RecID(EntryVal(getEnt))) || known == RecID(EntryVal(getEnt))
 
 //@ func (e *kvElection) handleWatchEvent(entry)
 //@   tags C06 C07 C08 C10 C13 C18
